@@ -21,6 +21,51 @@ Theorem C14_no_reject_outside_known_partial : forall c : case,
 Proof. exact no_reject_outside_known. Qed.
 Print Assumptions C14_no_reject_outside_known_partial.
 
+(* The second sentence of the property in the model: a frame secured under keys of a token the
+   receiver never issued is never accepted -- on every schedule, racy or not. *)
+Theorem C14_forged_never_accepted : forall c : case, ~ In 6 (run c).
+Proof. exact forged_never_accepted. Qed.
+Print Assumptions C14_forged_never_accepted.
+
+(* A quiescent renewal always succeeds and leaves both endpoints on the same, next, token with
+   empty links, from any in-sync idle state (so after any number of earlier renewals). *)
+Theorem C14_quiescent_renewal_resyncs_partial : forall s : st,
+  ce s = se s -> renewing s = false -> c2s s = [] -> sq s = [] -> s2c s = [] ->
+  let s1 := fst (step s CRenew) in let s2 := fst (step s1 SRecv) in
+  let s3 := fst (step s2 SWrite) in let s4 := fst (step s3 CRecv) in
+  run_from s [CRenew; SRecv; SWrite; CRecv] = [4; 2; 4; 2] /\
+  ce s4 = ce s + 1 /\ se s4 = ce s4 /\ renewing s4 = false /\ c2s s4 = [] /\ sq s4 = [] /\ s2c s4 = [].
+Proof. exact quiescent_renewal_resyncs. Qed.
+Print Assumptions C14_quiescent_renewal_resyncs_partial.
+
+(* After any history outside the two racy classes, once the links and the server's queue have
+   drained both endpoints hold the same token and no renewal is outstanding. *)
+Theorem C14_drained_means_in_sync_partial : forall c : case,
+  let s := fold_left (fun s o => fst (step s o)) c init in
+  known c = 0 -> c2s s = [] -> sq s = [] -> s2c s = [] -> ce s = se s /\ renewing s = false.
+Proof. exact drained_means_in_sync. Qed.
+Print Assumptions C14_drained_means_in_sync_partial.
+
+(* The two known classes are exact, not over-approximations: after ANY history outside them, a
+   request the client secures while its renew request is outstanding finds the server on the next
+   token when it arrives (after the frames ahead of it), whatever happens on the other link, and
+   is rejected; and a response written ahead of a queued renew response finds the client still on
+   an earlier token and is rejected. *)
+Theorem C14_class1_exact : forall c : case, known c = 0 -> renewing (after c) = true ->
+  let s := after c in
+  let s2 := srecv_n (length (c2s s)) (fst (step s CSend)) in
+  racy s CSend = 1 /\ se s2 = ce s + 1 /\ snd (step s2 SRecv) = 0.
+Proof. exact class1_exact. Qed.
+Print Assumptions C14_class1_exact.
+
+Theorem C14_class2_exact : forall (c : case) (r : list resp),
+  known c = 0 -> sq (after c) = RMsg :: r -> has_ropn r = true ->
+  let s := after c in
+  let s2 := crecv_n (length (s2c s)) (fst (step s SWrite)) in
+  racy s SWrite = 2 /\ ce s2 < se s /\ snd (step s2 CRecv) = 0.
+Proof. exact class2_exact. Qed.
+Print Assumptions C14_class2_exact.
+
 Theorem C14_oracle : forall c : case, known c = 0 -> oracle c (run c) = true.
 Proof. exact oracle_holds. Qed.
 Print Assumptions C14_oracle.
@@ -32,6 +77,16 @@ Print Assumptions C14_oracle.
    began -- not to every request entering send() while a renewal is in flight. *)
 Theorem C14_source_facts : single_key_slot = true /\ server_switches_on_request = true /\
   client_switches_on_response = true /\ no_token_id_check_on_receive = true /\
-  due_request_waits_for_renewal = true.
+  due_request_waits_for_renewal = true /\
+  (* the renew request installs the client nonce the new keys are built from; the client applies
+     token, server nonce and keys in one locked step, in end_issue_or_renew_secure_channel only *)
+  renew_request_installs_client_nonce = true /\ client_switch_is_one_locked_step = true /\
+  (* the server derives the new keys once, from the nonce of this request and a fresh nonce of its
+     own that it returns, under the channel's write lock, and refuses a repeated client nonce *)
+  server_renew_uses_fresh_nonces = true /\ server_switch_under_channel_lock = true /\
+  (* the windows of the two known classes: both sides secure a message when their transport task
+     takes it from its queue, not when the caller hands it over *)
+  server_secures_when_written = true /\ client_secures_when_dequeued = true /\
+  single_verification_path = true.
 Proof. repeat split; reflexivity. Qed.
 Print Assumptions C14_source_facts.
